@@ -4629,6 +4629,8 @@ impl<'a> Parser<'a> {
     }
 
     fn advance(&mut self) {
+        #[cfg(tsrun_verif)]
+        crate::verif_hooks::count_parser_advance();
         self.previous = mem::replace(&mut self.current, self.lexer.next_token());
     }
 
